@@ -361,7 +361,19 @@ var ruleParams = &core.Rule{ID: "R02.2", Min: 5,
 		cm := getCharset(c)
 		f := m.walk
 		if cm.walk != f {
-			s.Bad("sniffer map lives in the walk", c.Pos(cm.walk.Pos()), "the sniffer map is built outside the walk function")
+			s.Bad("sniffer map is consulted by the walk", c.Pos(cm.walk.Pos()), "the sniffer map is consulted outside the walk function")
+		}
+		if cm.mapGlobal != nil {
+			// a package-level table must never be written after initialisation
+			for _, g := range c.AllModFuncs() {
+				for _, b := range g.Blocks {
+					for _, in := range b.Instrs {
+						if mu, ok := in.(*ssa.MapUpdate); ok && cm.isSnifferMap(mu.Map) && !(g.Name() == "init" && g.Synthetic != "") {
+							s.Bad("sniffer table written after initialisation", c.Pos(mu.Pos()), "the package-level sniffer table is modified outside the package initialiser")
+						}
+					}
+				}
+			}
 		}
 		// the parameter map passed to chain
 		for _, ci := range core.Calls(f) {
@@ -386,7 +398,7 @@ var ruleParams = &core.Rule{ID: "R02.2", Min: 5,
 					okVal := false
 					if isCall && vcall.Call.StaticCallee() == nil {
 						if ex, ok := vcall.Call.Value.(*ssa.Extract); ok && ex.Index == 0 {
-							if lk, ok := ex.Tuple.(*ssa.Lookup); ok && lk.X == cm.mapAlloc && lk.CommaOk {
+							if lk, ok := ex.Tuple.(*ssa.Lookup); ok && cm.isSnifferMap(lk.X) && lk.CommaOk {
 								base, fld, isLoad := core.LoadOfField(lk.Index)
 								if isLoad && fld == m.tm.FMime && base == ssa.Value(f.Params[0]) && len(vcall.Call.Args) == 1 && vcall.Call.Args[0] == ssa.Value(f.Params[1]) {
 									okVal = true
@@ -542,26 +554,10 @@ var ruleErrorReturns = &core.Rule{ID: "R02.5", Min: 6,
 						s.Check(okExcuse, k2, c.Pos(bo.Pos()), "end-of-input sentinel of ReadFull", fmt.Sprintf("the error of %s is excused by comparison with %q: only io.EOF and io.ErrUnexpectedEOF from ReadFull mean `input shorter than the limit`", src, sentinel))
 					}
 					s.Check(tested, key, c.Pos(ex.Pos()), "compared with nil", fmt.Sprintf("the error returned by %s is never tested", src))
-					if tested {
-						// non-nil edge: reachable success returns need an excuse (a sentinel comparison on the way)
-						for _, ref := range *ex.Referrers() {
-							bo, ok := ref.(*ssa.BinOp)
-							if !ok || !(core.IsNilConst(bo.Y) || core.IsNilConst(bo.X)) {
-								continue
-							}
-							for _, r2 := range *bo.Referrers() {
-								iff, ok := r2.(*ssa.If)
-								if !ok {
-									continue
-								}
-								nonNil := iff.Block().Succs[0]
-								if bo.Op == token.EQL {
-									nonNil = iff.Block().Succs[1]
-								}
-								okPaths := errEdgeDisciplined(nonNil, ex, f)
-								s.Check(okPaths, key+": non-nil edge", c.Pos(iff.Pos()), "leads to the error return unless excused by a sentinel comparison", "with a non-nil error the function can reach its success path without an excusing comparison: a failed read would be reported as a detection")
-							}
-						}
+					if why := errPathsDisciplined(ex, f); why != "" {
+						s.Bad(key+": every path to success tests it", c.Pos(ex.Pos()), why)
+					} else {
+						s.OK(key+": every path to success tests it", c.Pos(ex.Pos()), "no path from the call to a success return skips the nil test or an end-of-input excuse")
 					}
 				}
 			}
@@ -587,40 +583,81 @@ func isPassThrough(v0, v1 ssa.Value) bool {
 	return ok && call.Call.StaticCallee() != nil && exportedAPI(call.Call.StaticCallee())
 }
 
-// errEdgeDisciplined: from block b (entered with err != nil), every path either
-// reaches a return whose error operand is err, or crosses the "equal" edge of a
-// comparison of err with a package-level sentinel.
-func errEdgeDisciplined(b *ssa.BasicBlock, err ssa.Value, f *ssa.Function) bool {
-	seen := map[*ssa.BasicBlock]bool{}
-	var walk func(b *ssa.BasicBlock) bool
-	walk = func(b *ssa.BasicBlock) bool {
-		if seen[b] {
-			return true
+// errPathsDisciplined explores every path from the definition of the error
+// value err to a return, tracking what is known about err: untested, nil,
+// non-nil, or excused (equal to a package-level sentinel). A return that does
+// not hand err back (a success return) is legal only when err is known nil or
+// excused. It returns "" when every path is disciplined.
+func errPathsDisciplined(err *ssa.Extract, f *ssa.Function) string {
+	const (
+		untested = iota
+		isNil
+		nonNil
+		excused
+	)
+	type st struct {
+		b *ssa.BasicBlock
+		k int
+	}
+	seen := map[st]bool{}
+	why := ""
+	var walk func(b *ssa.BasicBlock, k int)
+	walk = func(b *ssa.BasicBlock, k int) {
+		if why != "" || seen[st{b, k}] {
+			return
 		}
-		seen[b] = true
+		seen[st{b, k}] = true
 		if len(b.Instrs) == 0 {
-			return false
+			return
 		}
 		switch t := b.Instrs[len(b.Instrs)-1].(type) {
 		case *ssa.Return:
-			return len(t.Results) == 2 && spilled(t, 1) == err
+			if len(t.Results) == 2 && spilled(t, 1) == ssa.Value(err) {
+				return // the error is handed to the caller
+			}
+			if k == untested || k == nonNil {
+				why = fmt.Sprintf("a path reaches the success return at line %d while the error is %s: a failed read would be reported as a detection of the bytes delivered before the failure",
+					f.Prog.Fset.Position(t.Pos()).Line, map[int]string{untested: "untested", nonNil: "known to be non-nil and not excused"}[k])
+			}
 		case *ssa.If:
-			if bo, ok := t.Cond.(*ssa.BinOp); ok && (bo.X == err || bo.Y == err) && !core.IsNilConst(bo.X) && !core.IsNilConst(bo.Y) {
-				// comparison with a sentinel: the "equal" edge is excused (its legitimacy is judged by the sentinel rule)
-				if bo.Op == token.NEQ {
-					return walk(b.Succs[0])
+			cond, pos := core.StripNot(t.Cond, true)
+			tk, fk := k, k
+			if bo, ok := cond.(*ssa.BinOp); ok && (bo.X == ssa.Value(err) || bo.Y == ssa.Value(err)) && (bo.Op == token.EQL || bo.Op == token.NEQ) {
+				other := bo.Y
+				if other == ssa.Value(err) {
+					other = bo.X
 				}
-				if bo.Op == token.EQL {
-					return walk(b.Succs[1])
+				eqK, neK := k, k
+				if core.IsNilConst(other) {
+					eqK, neK = isNil, nonNil
+				} else if _, isG := core.LoadOfGlobal(other); isG {
+					eqK = excused
+					if k == untested {
+						neK = untested
+					}
+				}
+				if (bo.Op == token.EQL) == pos {
+					tk, fk = eqK, neK
+				} else {
+					tk, fk = neK, eqK
+				}
+			} else if call, ok := cond.(*ssa.Call); ok && core.CalleeIs(&call.Call, "errors", "Is") && call.Call.Args[0] == ssa.Value(err) {
+				if pos {
+					tk = excused
+				} else {
+					fk = excused
 				}
 			}
-			return walk(b.Succs[0]) && walk(b.Succs[1])
-		case *ssa.Jump:
-			return walk(b.Succs[0])
+			walk(b.Succs[0], tk)
+			walk(b.Succs[1], fk)
+		default:
+			for _, sc := range b.Succs {
+				walk(sc, k)
+			}
 		}
-		return false
 	}
-	return walk(b)
+	walk(err.Block(), untested)
+	return why
 }
 
 // R05.1 + R05.2
